@@ -108,6 +108,13 @@ def Acyc : List (LHS × Expr) → Prop
 /-- a test bench drives a top-level input -/
 def poke (r : Rd) (n : String) (v : Nat) : Rd := setWhole r n ⟨widthOf r n, v, true⟩
 
+/-- the Verilog-side counterpart of a test-bench operation (`Net.Op`): `inName k` is the name of the top-level input
+    port connected to net `k`; `clk(n)` is `n` cycles -/
+def applyOpA (f : V.Flat) (inName : Nat → String) (r : Rd) : Net.Op → Rd
+  | .poke k v => poke r (inName k) v.toNat
+  | .clk n => Net.iter (cycleA f) n r
+  | .resort => r
+
 /-! ## Simulator side -/
 
 /-- a combinational leaf with one output: `propagate()` puts `py (values of ins)` on `out` -/
@@ -265,9 +272,10 @@ structure FlatDesign where
   wd : Nat → Nat
   nm : Nat → String          -- name of each net in the top module (ports: the port name; local wires: `w_<name>`)
   clk : String               -- name of the clock port
+  nets : List Nat            -- the declared nets (ports and local wires of the top module)
   kinds : List Kind          -- inlinable children, in instantiation (= emission) order
   regs : List RegI
-  order : List Nat           -- the simulator's schedule of the combinational leaves
+  order : List Nat           -- the simulator's schedule of the combinational leaves (indices into `kinds`)
 
 /-- statement emitted by `BodyReg`, under an instance prefix (= `pfxS p (C01.regBody hasR hasE rv)`) -/
 def regBodyP (p : String) (hasR hasE : Bool) (rv : Nat) : Stmt :=
@@ -275,26 +283,75 @@ def regBodyP (p : String) (hasR hasE : Bool) (rv : Nat) : Stmt :=
   let withE := if hasE then Stmt.ife (.bin "ne" (.id (p ++ "e")) (lit 0)) core .skip else core
   if hasR then Stmt.ife (.bin "eq" (.id (p ++ "r")) (lit 1)) (.nba (.lid (p ++ "rq")) (lit rv)) withE else withE
 
-/-- assigns contributed by one flattened `Reg` instance: port connections (inputs: `i.d = <net>`; output: `<net> = i.q`),
-    the clock connection, and the body's `assign q = rq` -/
-def RegI.assigns (nm : Nat → String) (clk : String) (R : RegI) : List (LHS × Expr) :=
-  [(.lid (R.pfx ++ "q"), .id (R.pfx ++ "rq")),
-   (.lid (R.pfx ++ "clk"), .id clk),
-   (.lid (R.pfx ++ "d"), .id (nm R.leaf.d))] ++
+/-- assigns contributed by one flattened `Reg` instance (`V.flattenM`): the body's `assign q = rq` … -/
+def RegI.hq (R : RegI) : LHS × Expr := (.lid (R.pfx ++ "q"), .id (R.pfx ++ "rq"))
+
+/-- … the output port connection `<net> = i.q` … -/
+def RegI.hn (nm : Nat → String) (R : RegI) : LHS × Expr := (.lid (nm R.leaf.q), .id (R.pfx ++ "q"))
+
+/-- … the input port connections `i.d = <net>` (`i.e`, `i.r` when present) and the clock connection -/
+def RegI.tail (nm : Nat → String) (clk : String) (R : RegI) : List (LHS × Expr) :=
+  [(.lid (R.pfx ++ "d"), .id (nm R.leaf.d)), (.lid (R.pfx ++ "clk"), .id clk)] ++
   (if R.leaf.hasE then [(.lid (R.pfx ++ "e"), .id (nm R.leaf.e))] else []) ++
-  (if R.leaf.hasR then [(.lid (R.pfx ++ "r"), .id (nm R.leaf.r))] else []) ++
-  [(.lid (nm R.leaf.q), .id (R.pfx ++ "q"))]
+  (if R.leaf.hasR then [(.lid (R.pfx ++ "r"), .id (nm R.leaf.r))] else [])
 
 def RegI.proc (R : RegI) : Event × Stmt :=
   (.pos (R.pfx ++ "clk"), regBodyP R.pfx R.leaf.hasR R.leaf.hasE R.leaf.rv)
 
+/-- the continuous assigns of the flattened text, in one particular order (the theorems hold for EVERY permutation of
+    this list: the order in which the emitter writes the children, and `V.flattenM` the connections, is irrelevant) -/
 def FlatDesign.assigns (F : FlatDesign) : List (LHS × Expr) :=
-  F.kinds.map (Kind.assign F.wd F.nm) ++ (F.regs.map (RegI.assigns F.nm F.clk)).flatten
+  F.regs.map RegI.hq ++ (F.regs.map (RegI.hn F.nm) ++
+    (F.kinds.map (Kind.assign F.wd F.nm) ++ F.regs.flatMap (RegI.tail F.nm F.clk)))
 
 def FlatDesign.flat (F : FlatDesign) : V.Flat :=
   { assigns := F.assigns, procs := F.regs.map RegI.proc }
 
 def FlatDesign.netD (F : FlatDesign) : NetD :=
   { wd := F.wd, combs := F.kinds.map (Kind.leaf F.wd), regs := F.regs.map (·.leaf), order := F.order }
+
+/-! ### the signals of the flattened text, and the simulator net each one denotes -/
+
+inductive Node where
+  | net (k : Nat)            -- a port or local wire of the top module
+  | q (R : RegI)             -- ports and the variable of a flattened `Reg` instance
+  | rq (R : RegI)
+  | d (R : RegI)
+  | e (R : RegI)
+  | r (R : RegI)
+  | clk (R : RegI)
+  | base                     -- the clock port of the top module
+
+def FlatDesign.name (F : FlatDesign) : Node → String
+  | .net k => F.nm k
+  | .q R => R.pfx ++ "q"
+  | .rq R => R.pfx ++ "rq"
+  | .d R => R.pfx ++ "d"
+  | .e R => R.pfx ++ "e"
+  | .r R => R.pfx ++ "r"
+  | .clk R => R.pfx ++ "clk"
+  | .base => F.clk
+
+def RegI.nodes (R : RegI) : List Node :=
+  [.q R, .rq R, .d R, .clk R] ++ (if R.leaf.hasE then [.e R] else []) ++ (if R.leaf.hasR then [.r R] else [])
+
+def FlatDesign.nodes (F : FlatDesign) : List Node := F.nets.map .net ++ (F.regs.flatMap RegI.nodes ++ [.base])
+
+/-- all signal names of the flattened text; "injective naming" = this list has no duplicates -/
+def FlatDesign.names (F : FlatDesign) : List String := F.nodes.map F.name
+
+def netOf : Node → Option Nat
+  | .net k => some k
+  | .q R => some R.leaf.q
+  | .rq R => some R.leaf.q
+  | .d R => some R.leaf.d
+  | .e R => some R.leaf.e
+  | .r R => some R.leaf.r
+  | .clk _ => none
+  | .base => none
+
+/-- the simulator net a Verilog name denotes (none: clocks, undeclared names) -/
+def FlatDesign.net (F : FlatDesign) (s : String) : Option Nat :=
+  (F.nodes.find? (fun x => F.name x == s)).bind netOf
 
 end FlatM
